@@ -780,7 +780,7 @@ package base
 //@   oncall (*sync.WaitGroup).Done
 //@     assert [C18,C09] donelast: recv == wg && ran == 1 && donecnt == 0
 //@     after donecnt := 1
-//@   ensures [C18] ranonce: ran == 1 && donecnt == 1
+//@   ensures [C18,C09] ranonce: ran == 1 && donecnt == 1
 //@   ensures [C18] errlogged: len(eMsg) == old(len(eMsg)) + ite(tfailed, 1, 0)
 //@   ensures isnil(eMsg) || arr(eMsg) == old(arr(eMsg)) || fresh(arr(eMsg))
 //@   modifies frame evalframe, eMsg, elems(eMsg)
@@ -824,7 +824,7 @@ package base
 //@   oncall (*sync.WaitGroup).Done
 //@     assert [C18,C09] donelast: recv == wg && ran == 1 && donecnt == 0
 //@     after donecnt := 1
-//@   ensures [C18] ranonce: ran == 1 && donecnt == 1
+//@   ensures [C18,C09] ranonce: ran == 1 && donecnt == 1
 //@   ensures [C18] errlogged: len(eMsg) == old(len(eMsg)) + ite(tfailed, 1, 0)
 //@   ensures isnil(eMsg) || arr(eMsg) == old(arr(eMsg)) || fresh(arr(eMsg))
 //@   modifies frame evalframe, eMsg, elems(eMsg)
@@ -868,7 +868,7 @@ package base
 //@   oncall (*sync.WaitGroup).Done
 //@     assert [C18,C09] donelast: recv == wg && ran == 1 && donecnt == 0
 //@     after donecnt := 1
-//@   ensures [C18] ranonce: ran == 1 && donecnt == 1
+//@   ensures [C18,C09] ranonce: ran == 1 && donecnt == 1
 //@   ensures [C18] errlogged: len(eMsg) == old(len(eMsg)) + ite(tfailed, 1, 0)
 //@   ensures isnil(eMsg) || arr(eMsg) == old(arr(eMsg)) || fresh(arr(eMsg))
 //@   modifies frame evalframe, eMsg, elems(eMsg)
@@ -912,7 +912,7 @@ package base
 //@   oncall (*sync.WaitGroup).Done
 //@     assert [C18,C09] donelast: recv == wg && ran == 1 && donecnt == 0
 //@     after donecnt := 1
-//@   ensures [C18] ranonce: ran == 1 && donecnt == 1
+//@   ensures [C18,C09] ranonce: ran == 1 && donecnt == 1
 //@   ensures [C18] errlogged: len(eMsg) == old(len(eMsg)) + ite(tfailed, 1, 0)
 //@   ensures isnil(eMsg) || arr(eMsg) == old(arr(eMsg)) || fresh(arr(eMsg))
 //@   modifies frame evalframe, eMsg, elems(eMsg)
